@@ -428,6 +428,39 @@ func execC20(sc *core.Scenario) *core.Result {
 				res.Violate("crash:"+slotClass(sl, firstMod)+":other-id-changed", fmt.Sprintf("process death at %s of Store(%q) changed the entry of %q", sl.desc, short(id), oid))
 			}
 		}
+		// ---- life goes on, variant: the next store is one of ANOTHER identifier (on a copy of the disk); whatever
+		// it tidies up, the crashed identifier still yields old, new or an error, and the others are untouched
+		if len(slots) <= 300 || si%8 == 1 {
+			d2 := d.Clone()
+			d2.ResetPlan()
+			d2.Quiet = true
+			simos.Mount(d2)
+			env4 := &env{sp: sp, res: res, disk: d2, docs: docs}
+			env4.fs = &storage.FileSystem{Options: storage.FileSystemOptions{Path: sp.Path}}
+			later := proto.Clone(docs[len(docs)-1]).(*sbom.Document)
+			later.Metadata.Id = "later-other-identifier"
+			_, sabort, _ := env4.store(later, false, "fs")
+			if sabort != "" {
+				res.Violate("crash:"+slotClass(sl, firstMod)+":next-store-"+sabort, fmt.Sprintf("process death at %s of Store(%q): the next store (of another identifier) ended in %s", sl.desc, short(id), sabort))
+			} else {
+				res.Probes["store of another identifier after a crash"]++
+				doc2, rerr2, abort2, _ := env4.retrieve(id, "fs")
+				ok2 := abort2 == "" && (rerr2 != nil || (doc2 != nil && (proto.Equal(doc2, newDoc) || (oldDoc != nil && proto.Equal(doc2, oldDoc)) || matchesAny(doc2, alsoAllowed))))
+				if !ok2 {
+					res.Violate("crash:"+slotClass(sl, firstMod)+":partial-doc-after-next-store", fmt.Sprintf("process death %s system call #%d (%s%s) of Store(%q), then an uninterrupted store of another identifier: Retrieve(%q) now returns a document that is neither the complete old nor the complete new one (abort=%q)", sl.cp.When, sl.cp.Event, sl.desc, prefixNote(sl.cp), short(id), short(id), abort2))
+				}
+				for _, oid := range sortedKeys(e.model) {
+					if oid == id {
+						continue
+					}
+					od, oerr, oabort, _ := env4.retrieve(oid, "fs")
+					if oabort != "" || oerr != nil || !proto.Equal(od, e.model[oid].doc) {
+						res.Violate("crash:"+slotClass(sl, firstMod)+":other-id-changed-by-next-store", fmt.Sprintf("process death at %s of Store(%q), then a store of another identifier: the entry of %q changed", sl.desc, short(id), oid))
+					}
+				}
+			}
+			simos.Mount(d)
+		}
 		// ---- life goes on: the next (uninterrupted) store on top of what the crash left, here of the same
 		// identifier, must, if it reports success, be retrievable exactly, and must leave the others alone
 		if len(slots) <= 300 || si%8 == 0 {
